@@ -54,6 +54,8 @@ def classes(plan):
         d["targets"] = tl
     if plan.get("brk"):
         d["brk"] = "+".join(plan["brk"])
+    if plan.get("embed", "none") != "none":
+        d["embed"] = "%s-as-%s" % (plan["embed"], plan["ename"])
     if plan.get("plen", 0) > 5:
         d["plen" if plan["plat"] == "sgx" else "extra_elements"] = plan["plen"]
     return d
@@ -279,8 +281,8 @@ def run(ctx):
     for bi in order:
         b = behaviours[bi]
         i = b["inp"]
-        crossed = (i["targets"] not in (["ui", "signer"], ["quote"]) or i["plen"] > 5) and \
-            (i["brk"] or i["root"] == "wrong")
+        crossed = (i["targets"] not in (["ui", "signer"], ["quote"]) or i["plen"] > 5 or i["embed"] != "none") \
+            and (i["brk"] or i["root"] == "wrong")
         if b["ndev"] <= full_upto or (crossed and b["ndev"] == 2):
             # (a targets list crossed with where the chain is broken: every kind of corruption of that element)
             nvar = n_variants(b["inp"]) if b["ndev"] <= full_upto else 5
